@@ -58,6 +58,11 @@ let bump ?(by = 1) k = Hashtbl.replace stats k (by + (try Hashtbl.find stats k w
 let inv_cache : (string, bool) Hashtbl.t = Hashtbl.create 64
 let table_extra : (int, n * n) Hashtbl.t = Hashtbl.create 64      (* table id -> created_at (ns), file size *)
 let table_blob_bytes : (int, n) Hashtbl.t = Hashtbl.create 64     (* table id -> referenced on-disk blob bytes *)
+let version_blobs : (string, (int * int * int * int) list * (int * int * int * int) list) Hashtbl.t = Hashtbl.create 16
+let last_bs : (int * int) option ref = ref None
+let gc_before_reopen : (int * int * int * int) list option ref = ref None
+let dead_before : int list ref = ref []
+let tables_rewritten = ref false   (* the last step removed tables from the version *)
 let version_blob_total : (string, n) Hashtbl.t = Hashtbl.create 16 (* version id -> sum of compressed bytes of its blob files *)
 let now_secs = ref N0
 let verdicts : (string, string) Hashtbl.t = Hashtbl.create 8   (* key hex -> verdict code *)
@@ -67,6 +72,7 @@ let hp_before_reopen : string option ref = ref None
 let reopen_expect : (int * int * entry list) list list list option ref = ref None
 let last_hp = ref "-"
 let pointers : (string * string, int * int * int * int) Hashtbl.t = Hashtbl.create 64
+let frames_seen : (int * int, int * int) Hashtbl.t = Hashtbl.create 64   (* (blob file, offset) -> (on-disk size, size) *)
 (* logical view of an entry: a resolved indirection reads like a value *)
 let logical (e : entry) = match e.ty with Ind -> { e with ty = Value } | _ -> e
 
@@ -102,6 +108,70 @@ let rec is_prefix p k = match p, k with
   | [], _ -> true
   | _, [] -> false
   | x :: p', y :: k' -> N.eqb x y && is_prefix p' k'
+
+(* ---------- blob bookkeeping (C08 / C09) ----------
+   Brute force from the dump: the frames of a blob file are all pointers ever seen in a
+   table entry that point into it (a frame is created together with the entry that refers
+   to it); the garbage of file f in version v = its frames that no table entry of v points
+   to. gc_stats must equal that, stale_blob_bytes its on-disk sum, and a file with no
+   reference left must be gone after the next table-rewriting compaction or drop. *)
+let check_blobs (l : superversion) =
+  match Hashtbl.find_opt version_blobs (string_of_n l.ver.vid) with
+  | None -> ()
+  | Some (files, gc) ->
+    bump "blob_versions_checked";
+    (* referenced pointers of this version *)
+    let refs = Hashtbl.create 64 in
+    List.iter (fun t -> List.iter (fun e -> match e.ty with
+        | Ind -> (match Hashtbl.find_opt pointers (hex_of_bytes e.ukey, string_of_n e.seq) with
+            | Some (f, o, d, z) ->
+              if not (List.exists (fun (id, _, _, _) -> id = f) files) then
+                fail "dangling-pointer" (Printf.sprintf "key=%s seq=%s points into blob file %d which is not in version %s" (hex_of_bytes e.ukey) (string_of_n e.seq) f (string_of_n l.ver.vid));
+              Hashtbl.replace refs (f, o) (d, z)
+            | None -> ())
+        | _ -> ()) t.ents) (all_tables l.ver);
+    (* all frames ever created, per file *)
+    let frames = frames_seen in
+    let truth f = Hashtbl.fold (fun (f', o) (d, z) (n, b, dk) ->
+        if f' = f && not (Hashtbl.mem refs (f', o)) then (n + 1, b + z, dk + d) else (n, b, dk)) frames (0, 0, 0) in
+    let nframes f = Hashtbl.fold (fun (f', _) _ n -> if f' = f then n + 1 else n) frames 0 in
+    let stale_truth = ref 0 in
+    let dead_now = ref [] in
+    List.iter (fun (f, items, _comp, _uncomp) ->
+        if nframes f <> items then
+          drift "blob-frames" (Printf.sprintf "file %d has %d items but %d pointers were ever seen" f items (nframes f))
+        else begin
+          let (tn, tb, td) = truth f in
+          stale_truth := !stale_truth + td;
+          if tn = items then dead_now := f :: !dead_now;
+          let (gn, gb, gd) = (match List.find_opt (fun (id, _, _, _) -> id = f) gc with Some (_, a, b, c) -> (a, b, c) | None -> (0, 0, 0)) in
+          bump "gc_entries_checked";
+          if (gn, gb, gd) <> (tn, tb, td) then
+            fail "gc-stats" (Printf.sprintf "blob file %d: recorded garbage (len=%d bytes=%d on_disk=%d) but actually unreferenced (len=%d bytes=%d on_disk=%d)" f gn gb gd tn tb td)
+        end) files;
+    List.iter (fun (id, a, b, c) -> if not (List.exists (fun (f, _, _, _) -> f = id) files) then
+                  fail "gc-ghost" (Printf.sprintf "gc statistics keep an entry (len=%d bytes=%d on_disk=%d) for blob file %d which is not part of the version" a b c id)) gc;
+    (match !last_bs with
+     | Some (stale, cnt) ->
+       if cnt <> List.length files then fail "blob-count" (Printf.sprintf "blob_file_count=%d but the version lists %d" cnt (List.length files));
+       let gc_sum = List.fold_left (fun a (_, _, _, d) -> a + d) 0 gc in
+       if stale <> gc_sum then fail "stale-bytes" (Printf.sprintf "stale_blob_bytes=%d but gc entries sum to %d" stale gc_sum)
+     | None -> ());
+    (* promptness: a file that had no reference left before a table-rewriting step must be gone *)
+    let words = String.split_on_char ' ' !op_text in
+    (match words with
+     | ("major" | "droprange") :: _ when !tables_rewritten ->
+       List.iter (fun f -> if List.exists (fun (id, _, _, _) -> id = f) files && List.mem f !dead_now then
+                     fail "dead-file-kept" (Printf.sprintf "blob file %d had no reference before %s and is still part of the version" f (List.hd words))) !dead_before
+     | _ -> ());
+    dead_before := !dead_now;
+    (match !gc_before_reopen with
+     | Some g -> gc_before_reopen := None;
+       (* statistics of the files that are part of the version must survive unchanged
+          (entries for files that already left the version are dropped at recovery) *)
+       let live l = List.sort compare (List.filter (fun (id, _, _, _) -> List.exists (fun (f, _, _, _) -> f = id) files) l) in
+       if live g <> live gc then fail "gc-reopen" "blob GC statistics changed across reopen"
+     | None -> ())
 
 (* ---------- checks on a dump ---------- *)
 let sv_signature (sv : superversion) =
@@ -174,6 +244,7 @@ let check_dump ~(hp : string) ~(hm : string) ~(hs : string) (svs : superversion 
        fail "marks" (Printf.sprintf "memtable impl=%s model=%s" hm (show_opt_n (highest_memtable l)));
      if not (opt_n_eq (highest_overall l) (opt_n_of_string hs)) then
        fail "marks" (Printf.sprintf "overall impl=%s model=%s" hs (show_opt_n (highest_overall l)));
+     check_blobs l;
      (* 3. content of the latest superversion reads like the history at the top snapshot *)
      bump "agree_top";
      let c = List.map logical (content l) in
@@ -430,6 +501,7 @@ let () =
          let bad = String.length v >= 3 && (String.sub v 0 3 = "UNR" || String.sub v 0 3 = "ERR" || String.sub v 0 3 = "NOB") in
          if bad then fail "resolve" (Printf.sprintf "key=%s seq=%s %s" k s v);
          Hashtbl.replace pointers (k, s) (int_of_string f, int_of_string o, int_of_string d, int_of_string z);
+         Hashtbl.replace frames_seen (int_of_string f, int_of_string o) (int_of_string d, int_of_string z);
          l := { ukey = bytes_of_hex k; seq = n_of_string s; ty = Ind; val0 = (if bad then [] else bytes_of_hex v) } :: !l
        | _ -> failwith ("bad entry line: " ^ lines.(!i)));
       incr i
@@ -459,6 +531,18 @@ let () =
            | None -> ());
           hp_before_reopen := Some !last_hp;
           (match latest !cur with
+           | Some l -> (match Hashtbl.find_opt version_blobs (string_of_n l.ver.vid) with Some (_, g) -> gc_before_reopen := Some g | None -> ())
+           | None -> ());
+          dead_before := [];
+          Hashtbl.reset pointers;
+          (match latest !cur with
+           | Some l ->
+             let keep = (match Hashtbl.find_opt version_blobs (string_of_n l.ver.vid) with Some (files, _) -> List.map (fun (id, _, _, _) -> id) files | None -> []) in
+             let drop = Hashtbl.fold (fun (f, o) _ acc -> if List.mem f keep then acc else (f, o) :: acc) frames_seen [] in
+             List.iter (Hashtbl.remove frames_seen) drop
+           | None -> ());
+          Hashtbl.reset version_blobs;
+          (match latest !cur with
            | Some l -> reopen_expect := Some (List.map (fun lvl -> List.map (fun r -> List.map (fun t -> (int_of_n t.tid, int_of_n t.gseq, List.map logical t.ents)) r) lvl) l.ver.levels)
            | None -> ());
           Hashtbl.reset tables; Hashtbl.reset mts; Hashtbl.reset inv_cache;
@@ -473,7 +557,7 @@ let () =
      | [ "IW"; k; ty; v ] -> pending_ingest := (bytes_of_hex k, ty_of_code ty, bytes_of_hex v) :: !pending_ingest
      | [ "WM"; w ] -> wm := n_of_string w
      | [ "NOW"; secs ] -> now_secs := n_of_string secs
-     | "SKIP" :: _ -> bump "skipped_moves"
+     | "SKIP" :: _ -> bump "skipped"
      | [ "F"; k; v; verdict ] -> bump "filter_calls"; pending_f := (k, v, verdict) :: !pending_f
      | "R" :: "ok" :: _ -> ()
      | "R" :: "experr" :: _ -> bump "expected_errors"
@@ -531,6 +615,9 @@ let () =
          pending_ingest := []
        end;
        (match latest !cur, latest svs with
+        | Some pre, Some post -> tables_rewritten := List.exists (fun i -> not (List.mem i (table_ids post))) (table_ids pre)
+        | _ -> tables_rewritten := false);
+       (match latest !cur, latest svs with
         | Some pre, Some post when !op_idx >= 0 ->
           (try check_step_model ~wm:!wm pre post with Not_found -> ());
           apply_destructive_op pre post;
@@ -563,8 +650,11 @@ let () =
        bump "blob_dumps";
        let tot = if files = "-" then N0 else List.fold_left (fun acc l -> match String.split_on_char ':' l with
            | [ _; _; c; _ ] -> N.add acc (n_of_string c) | _ -> acc) N0 (String.split_on_char ',' files) in
-       Hashtbl.replace version_blob_total vid tot
-     | "BS" :: _ -> ()
+       Hashtbl.replace version_blob_total vid tot;
+       let quad l = if l = "-" then [] else List.map (fun x -> match String.split_on_char ':' x with
+           | [ a; b; c; d ] -> (int_of_string a, int_of_string b, int_of_string c, int_of_string d) | _ -> (0, 0, 0, 0)) (String.split_on_char ',' l) in
+       Hashtbl.replace version_blobs vid (quad files, quad _gc)
+     | [ "BS"; stale; cnt ] -> last_bs := Some (int_of_string stale, int_of_string cnt)
      | [ "RESOLVEFAIL"; vid; tid; k; sq ] -> fail "resolve" (Printf.sprintf "vid=%s table=%s key=%s seq=%s" vid tid k sq)
      | "O" :: "get" :: k :: s :: res :: _contains :: _size :: [] ->
        bump "gets";
